@@ -1089,8 +1089,11 @@ where
         match (orientation_inside, orientation_test) {
             (Orientation::NEGATIVE, Orientation::POSITIVE)
             | (Orientation::POSITIVE, Orientation::NEGATIVE) => Ok(true),
-            (Orientation::DEGENERATE, _) | (_, Orientation::DEGENERATE) => {
-                // Degenerate case - fall back to distance heuristic
+            // The test point lies in the facet's supporting hyperplane: it sees the facet edge-on,
+            // which is not visible (treating it as visible would extend the hull by a flat cell).
+            (Orientation::NEGATIVE | Orientation::POSITIVE, Orientation::DEGENERATE) => Ok(false),
+            (Orientation::DEGENERATE, _) => {
+                // Degenerate adjacent cell - fall back to distance heuristic
                 // Reuse vertices already loaded above to avoid redundant facet.vertices() call
                 Self::fallback_visibility_test(&facet_vertices, point)
             }
